@@ -131,6 +131,7 @@ func (l *leg[C]) check(t *testing.T) {
 		if err != nil {
 			panic("harness: case not serialisable: " + err.Error())
 		}
+		saveCurrent(l.name, js)
 		res, f := safeRun(l.run, c)
 		if f != nil && strings.HasPrefix(f.Key, "harness/") {
 			infra(f.Error())
@@ -441,6 +442,19 @@ func reportFailure(legName string, fr *failRec) {
 		fmt.Printf("VERIF-INFRA cannot write replay: %v\n", err)
 	}
 	fmt.Printf("VERIF-FAIL property=%s leg=%s key=%s replay=%s msg=%s\n", col.prop, legName, fr.fail.Key, path, oneLine(fr.fail.Msg))
+}
+
+// saveCurrent records the case about to run, so that a crash of the whole process
+// (a panic in a goroutine started by the code under test cannot be recovered) still
+// leaves a replayable case behind for the driver.
+func saveCurrent(legName string, js []byte) {
+	path := os.Getenv("VERIF_EV")
+	if path == "" {
+		return
+	}
+	rf := replayFile{Property: col.prop, Leg: legName, Key: col.prop + "/crash", Msg: "process crashed while running this case", Case: js}
+	b, _ := json.Marshal(rf)
+	_ = os.WriteFile(path+".current", b, 0o644)
 }
 
 // ReportHang is used by watchdogs: the case cannot be shrunk, so it is saved as is
